@@ -802,6 +802,14 @@ def _single_expr_helper(fnode, name):
             if len(body) == 1 and isinstance(body[0], ast.Return) and body[0].value is not None and not n.args.vararg and not n.args.kwarg \
                     and not n.args.defaults and _pure(body[0].value):
                 return [a.arg for a in n.args.args], body[0].value
+            # `if c: return A` (else) `return B`  ==  `return A if c else B`
+            if len(body) in (1, 2) and isinstance(body[0], ast.If) and len(body[0].body) == 1 and isinstance(body[0].body[0], ast.Return) \
+                    and body[0].body[0].value is not None and not n.args.vararg and not n.args.kwarg and not n.args.defaults:
+                other = body[1] if len(body) == 2 and not body[0].orelse else (body[0].orelse[0] if len(body) == 1 and len(body[0].orelse) == 1 else None)
+                if isinstance(other, ast.Return) and other.value is not None:
+                    e = ast.IfExp(test=body[0].test, body=body[0].body[0].value, orelse=other.value)
+                    if _pure(e):
+                        return [a.arg for a in n.args.args], e
         if isinstance(n, ast.Assign) and isinstance(n.value, ast.Lambda) and any(isinstance(t, ast.Name) and t.id == name for t in n.targets):
             lam = n.value
             if not lam.args.defaults and not lam.args.vararg and _pure(lam.body):
